@@ -354,7 +354,7 @@ Proof.
             match x with
             | VArr xs =>
               if two63 <=? zlen xs then OutOfFuel else
-              match py_slice xs a b c with
+              match py_slice xs a b (cjoin c) with
               | Some ys => ys0 <- mapM (rhs_eval ord r) ys ;; Ok (VArr (drop_nulls ys0))
               | None => Err EEval
               end
@@ -362,9 +362,9 @@ Proof.
             end).
     apply RJ_bind; [apply IHl; [destruct l; [left; cbn; lia | right; reflexivity] | exact Hl1]|].
     intros x Hx. destruct x; try (apply RJ_ok; reflexivity). destruct (two63 <=? zlen l0); [intros w E; discriminate|].
-    destruct (py_slice l0 a b c) as [ys|] eqn:Ep; [|apply RJ_err].
+    destruct (py_slice l0 a b (cjoin c)) as [ys|] eqn:Ep; [|apply RJ_err].
     apply RJ_project; [apply IHr; [destruct r; [right; reflexivity | left; cbn; lia | left; cbn; lia] | exact Hl2]|].
-    unfold py_slice in Ep. destruct (py_indices (zlen l0) a b c); inversion Ep. apply J_pick_idx. exact Hx.
+    unfold py_slice in Ep. destruct (py_indices (zlen l0) a b (cjoin c)); inversion Ep. apply J_pick_idx. exact Hx.
   - apply andb_true_iff in Hl as [Hl1 Hl2].
     change (eval ord (EListProj l r) v)
       with (x <- lhs_eval ord l v ;;
